@@ -107,20 +107,27 @@ func PairRoleConsistency(p *core.Program, r *core.Report, rule string) {
 				}
 				sig := fn.Type().(*types.Signature)
 				var only1, only2 []string
+				var t1, t2 []types.Type
 				for i, a := range x.Args {
 					if i >= sig.Params().Len() || sig.Variadic() {
-						break
-					}
-					if pn := sig.Params().At(i).Name(); !strings.HasPrefix(strings.ToLower(pn), "is") && (roleOf(pn) != 0 || strings.HasSuffix(pn, "1") || strings.HasSuffix(pn, "2")) {
-						only1, only2 = nil, nil // the callee takes the pair
 						break
 					}
 					h1, h2 := rolesIn(fd.Pkg.TypesInfo, fd.Decl.Body, a)
 					switch {
 					case h1 && !h2:
 						only1 = append(only1, core.ExprStr(a))
+						t1 = append(t1, sig.Params().At(i).Type())
 					case h2 && !h1:
 						only2 = append(only2, core.ExprStr(a))
+						t2 = append(t2, sig.Params().At(i).Type())
+					}
+				}
+				// a callee that takes the pair has two parameters of one type for the two sides (conns1, conns2 / set1, set2)
+				for _, a := range t1 {
+					for _, b := range t2 {
+						if types.Identical(a, b) {
+							only1, only2 = nil, nil
+						}
 					}
 				}
 				if len(only1)+len(only2) >= 2 {
